@@ -6,7 +6,8 @@
    point whenever it ends by its equality test, and the composition [C01_written].  ASSUMED in
    [C01_written] (hypotheses H0, H1, H2a, H2b about go/parser, go/printer, go/format and gofumpt — about
    15k lines of Go that are not modelled) and TESTED on every generated case by the correspondence harness. *)
-Require Import Gengo.Base.Bytes Gengo.Model.GenFile Gengo.Proofs.GenFile Gengo.Proofs.GenFileWitness.
+Require Import Gengo.Base.Bytes Gengo.Model.GenFile Gengo.Proofs.GenFile Gengo.Proofs.GenFileWitness
+  Gengo.Proofs.GenFileToyWitness.
 From Coq Require Import Permutation Sorted.
 
 (* The source handed to the formatter opens with a general comment — by Go's lexical rule the text from the
@@ -90,6 +91,12 @@ Print Assumptions C01_formatting_loop_converges.
      - has the declarations of the assembled source (whose body is what was rendered, C01_body), in order,
        modulo formatting;
      - is a fixed point of gofmt and of gofumpt (fmt2 IS gofumpt with the module's language version). *)
+(* WHAT IS ASSUMED, conjunct by conjunct: "parses", "package", "declarations" and the survival of the header words are
+   H1 (with H0) applied to the one call of the formatter that produced the file, and "gofmt fixed point" is H2a applied
+   to it — these four conjuncts RESTATE hypotheses about the unmodelled Go formatter stack for the file at hand; "gofumpt
+   fixed point" is PROVED when the loop ends by its equality test (C01_formatting_loop) and rests on H2b only when all
+   5 rounds were used.  What the theorem itself proves is the composition: that the file on disk is the output of that
+   one call on the assembled source (write loop, any order, any previous directory), so that the hypotheses apply. *)
 Theorem C01_written :
   forall (fmt1 fmt2 gofmt : bytes -> option bytes) (go_parses : bytes -> bool)
          (go_pkg : bytes -> option bytes) (go_decls : bool -> bytes -> option (list bytes)),
@@ -153,6 +160,103 @@ Example C01_hypotheses_satisfiable :
   /\ H2a id_fmt id_fmt
   /\ H2b id_fmt id_fmt.
 Proof. exact hypotheses_satisfiable. Qed.
+
+(* ... and by a formatter stack that DOES something (Proofs/GenFileToyWitness.v): a toy language with a general
+   comment, a package clause and balanced braces; fmt1 rejects what does not parse and strips trailing spaces, fmt2
+   allows one blank line in a row, gofmt two; the declarations are the non-blank lines without their spaces.  The four
+   hypotheses are proved for ALL inputs of these Gallina functions. *)
+Example C01_hypotheses_satisfiable_nontrivially :
+  H0 toy_fmt1 pkg_clause_of
+  /\ H1 toy_fmt1 toy_fmt2 toy_parses pkg_clause_of toy_decls
+  /\ H2a toy_fmt2 toy_gofmt
+  /\ H2b toy_fmt1 toy_fmt2.
+Proof. exact toy_hypotheses. Qed.
+Print Assumptions C01_hypotheses_satisfiable_nontrivially.
+
+(* ... this parser rejects (no comment; a package name that is no identifier; an unclosed brace; a brace closed before
+   it is opened), the declaration reader answers None on what does not parse, and gofmt is strictly weaker than fmt2 *)
+Example C01_toy_parser_rejects :
+  toy_parses (bs ("package p" ++ lf)) = false
+  /\ toy_parses (bs ("/**/" ++ lf ++ "package p-q" ++ lf)) = false
+  /\ toy_parses (bs ("/**/" ++ lf ++ "package p" ++ lf ++ "func g() {" ++ lf)) = false
+  /\ toy_parses (bs ("/**/" ++ lf ++ "package p" ++ lf ++ "}{" ++ lf)) = false
+  /\ toy_parses (bs ("/**/" ++ lf ++ "package p" ++ lf ++ "func g() {}" ++ lf)) = true
+  /\ toy_decls false (bs ("package p" ++ lf)) = None
+  /\ (let s := bs ("/**/" ++ lf ++ "package p" ++ lf ++ "var a" ++ lf ++ lf ++ lf ++ "var b" ++ lf) in
+      toy_gofmt s = Some s /\ toy_fmt2 s <> Some s).
+Proof. exact toy_rejects. Qed.
+
+(* C01_written INSTANTIATED with that stack (its four hypotheses discharged, nothing assumed) ... *)
+Example C01_written_toy_instance :
+  forall base pkg gfs fs fs',
+    NoDup (map gf_name gfs) ->
+    write_all toy_fmt1 toy_fmt2 true base pkg gfs fs = Some fs' ->
+    forall g, In g gfs -> body_of (gf_snips g) <> [] ->
+      let src := assemble pkg (gf_name g) (gf_imports g) (body_of (gf_snips g)) in
+      exists out,
+        fs_get fs' (filename base (gf_name g)) = Some out
+        /\ toy_parses out = true
+        /\ (ident pkg = true -> plain (gf_name g) = true -> mentions_build src = false ->
+            exists c, lead_comment out = Some c /\ infix (bs "gengo:" ++ gf_name g) c)
+        /\ (ident pkg = true -> plain (gf_name g) = true -> pkg_clause_of out = Some pkg)
+        /\ (forall b, toy_decls b out = toy_decls b src)
+        /\ toy_gofmt out = Some out
+        /\ toy_fmt2 out = Some out.
+Proof.
+  exact (C01_written toy_fmt1 toy_fmt2 toy_gofmt toy_parses pkg_clause_of toy_decls
+           (proj1 toy_hypotheses) (proj1 (proj2 toy_hypotheses)) (proj1 (proj2 (proj2 toy_hypotheses)))
+           (proj2 (proj2 (proj2 toy_hypotheses)))).
+Qed.
+Print Assumptions C01_written_toy_instance.
+
+(* ... and one run of the write loop through it, computed: generator "toy" (an import, lines ending in spaces, runs of
+   blank lines, a comment) next to a generator that renders nothing, into a directory with a user file and a previous
+   output.  The first stage changes the source, the second changes the first stage's output (two rounds of the loop),
+   the file on disk is [toy_out], differs from the assembled source, and has every property C01_written lists. *)
+Example C01_written_toy_run :
+  exists fs',
+    write_all toy_fmt1 toy_fmt2 true (bs "zz_generated") (bs "p") [toy_gen_none; toy_gen] toy_fs0 = Some fs'
+    /\ fs_get fs' (bs "zz_generated.toy.go") = Some toy_out
+    /\ fs_get fs' (bs "zz_generated.none.go") = None
+    /\ fs_get fs' (bs "user.go") = Some (bs "package p")
+    /\ toy_out <> toy_src
+    /\ (exists printed, toy_fmt1 toy_src = Some printed /\ printed <> toy_src
+                        /\ toy_fmt2 printed = Some toy_out /\ printed <> toy_out)
+    /\ toy_parses toy_out = true
+    /\ lead_comment toy_out = Some (header_comment (bs "p") (bs "toy"))
+    /\ pkg_clause_of toy_out = Some (bs "p")
+    /\ toy_decls false toy_src
+       = Some [bs "import("; bs "	strings""strings"""; bs ")"; bs "funcf(){"; bs "	returnstrings.ToUpper(""x"")"; bs "}";
+               bs "//two"; bs "//lines"; bs "varx=struct{}{}"]
+    /\ toy_decls false toy_out = toy_decls false toy_src
+    /\ toy_decls true toy_out
+       = Some [bs "funcf(){"; bs "	returnstrings.ToUpper(""x"")"; bs "}"; bs "//two"; bs "//lines"; bs "varx=struct{}{}"]
+    /\ toy_gofmt toy_out = Some toy_out
+    /\ toy_fmt2 toy_out = Some toy_out.
+Proof. exact toy_run. Qed.
+Print Assumptions C01_written_toy_run.
+
+(* the bytes of that file *)
+Example C01_written_toy_bytes :
+  toy_out =
+  bs ("/*" ++ lf ++ "Package p GENERATED BY gengo:toy " ++ lf ++ "DON'T EDIT THIS FILE" ++ lf ++ "*/" ++ lf
+      ++ "package p" ++ lf ++ lf
+      ++ "import (" ++ lf ++ "	strings ""strings""" ++ lf ++ ")" ++ lf
+      ++ "func f() {" ++ lf ++ lf ++ "	return strings.ToUpper(""x"")" ++ lf ++ "}" ++ lf
+      ++ "// two" ++ lf ++ "// lines" ++ lf ++ lf
+      ++ "var x = struct{}{}" ++ lf).
+Proof. reflexivity. Qed.
+
+(* a rendering the first stage REJECTS (an unclosed brace): it does not parse, WriteToFile returns the error before the
+   destination is opened, the write loop stops — no file system is returned, whatever the order of the two files *)
+Example C01_rejected_rendering_not_written :
+  let src := assemble (bs "p") (bs "bad") [] (body_of (gf_snips toy_gen_bad)) in
+  toy_parses src = false
+  /\ toy_fmt1 src = None
+  /\ write_file toy_fmt1 toy_fmt2 true (bs "zz_generated") (bs "p") toy_gen_bad = WErr
+  /\ write_all toy_fmt1 toy_fmt2 true (bs "zz_generated") (bs "p") [toy_gen; toy_gen_bad] toy_fs0 = None
+  /\ write_all toy_fmt1 toy_fmt2 true (bs "zz_generated") (bs "p") [toy_gen_bad; toy_gen] toy_fs0 = None.
+Proof. exact toy_rejected_not_written. Qed.
 
 (* ... and the write loop does write, on the recorded behaviour of the real formatter *)
 Example C01_written_nonvacuous :
